@@ -525,43 +525,74 @@ func c16SetSession(e *c16Env) {
 	c.Check(len(gets[0].Args) == 1 && e.isCid(f, gets[0].Args[0], 0), "R-C16-1", cons+"|previous session is looked up by the connecting client id", pos(c, gets[0]),
 		"sessMgr.get(<client id of the connection>)", "the previous session is not looked up under the connecting client's id: a reconnecting client would get somebody else's (or no) session")
 
+	// the previous session and the parameters it is bound to in the helpers the chooser calls
+	// (predicate `resumes(connect, prev)`, `discard(prev, id)` ...)
+	prevObjs := map[types.Object]bool{prevObj: true}
+	e.bindParams(f, prevObjs, 2)
+	// broker-level helpers are interpreted in place; the session / manager methods the rule reasons
+	// about by name (cleanSession, close, allSubscribes, get, new ...) stay calls
+	inline := func(call *ast.CallExpr, callee *types.Func) *flow.Func {
+		if callee == nil {
+			return nil
+		}
+		d := e.decls[callee]
+		if d == nil || c16RecvIs(d, "Session") || c16RecvIs(d, "SessionManager") || c16RecvIs(d, "TopicManager") || c16RecvIs(d, "Client") {
+			return nil
+		}
+		return funcOf(e.pkg, d)
+	}
+	helperBodies := []*flow.Func{f}
+	for _, g := range reach(f, 2) {
+		if fd, ok := g.Node.(*ast.FuncDecl); ok && g.Body != f.Body && inline(nil, e.objFunc(fd)) != nil {
+			helperBodies = append(helperBodies, g)
+		}
+	}
 	// atoms of the table, by role
-	var aKeys, cKeys []string
-	ast.Inspect(f.Body, func(n ast.Node) bool {
-		switch x := n.(type) {
-		case *ast.SelectorExpr:
-			if s := f.Info.Selections[x]; s != nil {
-				if v, ok := s.Obj().(*types.Var); ok && v.IsField() && v.Name() == "CleanSession" && v.Pkg() != nil && v.Pkg().Path() == c16Packets {
+	var aKeys, cKeys, bKeys []string
+	for _, g := range helperBodies {
+		ast.Inspect(g.Body, func(n ast.Node) bool {
+			switch x := n.(type) {
+			case *ast.SelectorExpr:
+				if s := f.Info.Selections[x]; s != nil {
+					if v, ok := s.Obj().(*types.Var); ok && v.IsField() && v.Name() == "CleanSession" && v.Pkg() != nil && v.Pkg().Path() == c16Packets {
+						k, _ := f.Atom(x)
+						aKeys = c16AddKey(aKeys, k)
+					}
+				}
+				if c16Sel(f, x, e.cleanFlagF) && prevObjs[c16Obj(f, c16Root(x))] {
 					k, _ := f.Atom(x)
-					aKeys = c16AddKey(aKeys, k)
+					cKeys = c16AddKey(cKeys, k)
+				}
+			case *ast.CallExpr:
+				if c16Is(f, x, "(*"+mq+".Session).cleanSession") && prevObjs[c16Obj(f, c16Recv(x))] {
+					cKeys = c16AddKey(cKeys, f.CallKey(x))
+				}
+			case *ast.Ident:
+				if prevObjs[c16Obj(f, x)] {
+					bKeys = c16AddKey(bKeys, f.NilKey(x))
 				}
 			}
-			if c16Sel(f, x, e.cleanFlagF) && c16Obj(f, c16Root(x)) == prevObj {
-				k, _ := f.Atom(x)
-				cKeys = c16AddKey(cKeys, k)
-			}
-		case *ast.CallExpr:
-			if c16Is(f, x, "(*"+mq+".Session).cleanSession") && c16Obj(f, c16Recv(x)) == prevObj {
-				cKeys = c16AddKey(cKeys, f.CallKey(x))
-			}
-		}
-		return true
-	})
+			return true
+		})
+	}
 	bKey := f.NilKey(prevID)
 
 	const evReuse, evNew, evOther, evClosed, evUnsub = "ev:c16reuse", "ev:c16new", "ev:c16other", "ev:c16closedPrev", "ev:c16unsubPrev"
 	// variables holding the previous session's topics: first result of prev.allSubscribes()
 	prevTopics := map[types.Object]bool{}
-	ast.Inspect(f.Body, func(n ast.Node) bool {
-		if as, ok := n.(*ast.AssignStmt); ok && len(as.Rhs) == 1 && len(as.Lhs) >= 1 {
-			if call, ok := ast.Unparen(as.Rhs[0]).(*ast.CallExpr); ok && c16Is(f, call, "(*"+mq+".Session).allSubscribes") && c16Obj(f, c16Recv(call)) == prevObj {
-				if o := c16Obj(f, as.Lhs[0]); o != nil {
-					prevTopics[o] = true
+	for _, g := range helperBodies {
+		ast.Inspect(g.Body, func(n ast.Node) bool {
+			if as, ok := n.(*ast.AssignStmt); ok && len(as.Rhs) == 1 && len(as.Lhs) >= 1 {
+				if call, ok := ast.Unparen(as.Rhs[0]).(*ast.CallExpr); ok && c16Is(f, call, "(*"+mq+".Session).allSubscribes") && prevObjs[c16Obj(f, c16Recv(call))] {
+					if o := c16Obj(f, as.Lhs[0]); o != nil {
+						prevTopics[o] = true
+					}
 				}
 			}
-		}
-		return true
-	})
+			return true
+		})
+	}
+	cidParams := e.cidParams(f, 2)
 	isNewExpr := func(r ast.Expr) bool {
 		r = ast.Unparen(r)
 		if call, ok := r.(*ast.CallExpr); ok {
@@ -644,9 +675,22 @@ func c16SetSession(e *c16Env) {
 		return flow.Unknown
 	}
 	mirror := func(k string) string { return "ev:c16atom:" + k }
-	allAtoms := append(append(append([]string{}, aKeys...), bKey), cKeys...)
+	allAtoms := append(append(append(append([]string{}, aKeys...), bKey), bKeys...), cKeys...)
 	res := analyze(c, f, flow.Config{
 		NoHavoc: true,
+		Inline:  inline,
+		OnInline: func(st *flow.State, ev *flow.InlineEvent) {
+			if !ev.Enter {
+				return
+			}
+			for i, pid := range ev.Params {
+				if i < len(ev.Args) && pid != nil {
+					if v := provOf(st, ev.Args[i]); v != flow.Unknown {
+						st.Set(provKey(pid), v)
+					}
+				}
+			}
+		},
 		AfterAssume: func(st *flow.State, cond ast.Expr, outcome bool) {
 			// remember the atoms as decided: the variable holding the previous session may be reassigned
 			for _, k := range allAtoms {
@@ -681,10 +725,10 @@ func c16SetSession(e *c16Env) {
 			}
 		},
 		OnCall: func(st *flow.State, call *ast.CallExpr, callee types.Object, deferred bool) {
-			if c16Is(f, call, "(*"+mq+".Session).close") && c16Obj(f, c16Recv(call)) == prevObj && provOf(st, c16Recv(call)) == flow.True {
+			if c16Is(f, call, "(*"+mq+".Session).close") && prevObjs[c16Obj(f, c16Recv(call))] && provOf(st, c16Recv(call)) == flow.True {
 				st.Set(evClosed, flow.True)
 			}
-			if c16Is(f, call, "(*"+mq+".TopicManager).unsubscribe") && len(call.Args) == 2 && prevTopics[c16Obj(f, call.Args[0])] && e.isCid(f, call.Args[1], 0) {
+			if c16Is(f, call, "(*"+mq+".TopicManager).unsubscribe") && len(call.Args) == 2 && prevTopics[c16Obj(f, call.Args[0])] && (e.isCidReach(f, call.Args[1]) || cidParams[c16Obj(f, call.Args[1])]) {
 				st.Set(evUnsub, flow.True)
 			}
 		},
@@ -712,7 +756,7 @@ func c16SetSession(e *c16Env) {
 			}
 			return c16First(st, keys)
 		}
-		a, b, cc := atom(aKeys), atom([]string{bKey}), atom(cKeys)
+		a, b, cc := atom(aKeys), atom(append([]string{bKey}, bKeys...)), atom(cKeys)
 		reuse, isNew := st.Is(evReuse, flow.True), st.Is(evNew, flow.True)
 		if returnsSession && !reuse && !isNew && !st.Is(evOther, flow.True) {
 			// the chooser hands its choice back to the caller, which assigns client.session
@@ -842,9 +886,11 @@ func c16Resubscribe(e *c16Env) {
 		cons := e.fnameOf(f)
 		readF := e.anchor("readLoop")
 		var reads []*ast.CallExpr
-		for _, call := range calls(f.Body, false) {
-			if e.callTo(f, call, readF) {
-				reads = append(reads, call)
+		for _, g := range syncReach(e, f, 3) {
+			for _, call := range calls(g.Body, false) {
+				if e.callTo(g, call, readF) {
+					reads = append(reads, call)
+				}
 			}
 		}
 		if c.RequireCount("R-C16-2", "readLoop call sites in handleConn", len(reads), 1) {
@@ -870,9 +916,20 @@ func c16Resubscribe(e *c16Env) {
 				}
 				recv := c16Recv(call)
 				if c16Sel(g, recv, e.sessionF) && clients[c16Obj(g, c16Root(recv))] {
-					load = call
-					topicsID, _ = as.Lhs[0].(*ast.Ident)
-					qossID, _ = as.Lhs[1].(*ast.Ident)
+					// only the enumeration whose topics are handed to TopicManager.subscribe (a teardown
+					// helper enumerates them too, to unsubscribe)
+					tid, _ := as.Lhs[0].(*ast.Ident)
+					used := false
+					for _, sc := range c16CallsTo(g, g.Body, false, "(*"+mq+".TopicManager).subscribe") {
+						if len(sc.Args) == 3 && tid != nil && c16Obj(g, sc.Args[0]) == c16Obj(g, tid) {
+							used = true
+						}
+					}
+					if used || load == nil {
+						load = call
+						topicsID = tid
+						qossID, _ = as.Lhs[1].(*ast.Ident)
+					}
 				}
 				return true
 			})
@@ -977,8 +1034,8 @@ func c16Resubscribe(e *c16Env) {
 	}
 
 	// processSubscribe records accepted subscriptions in the session
-	if f := fn(c, mq, "", "processSubscribe"); f != nil {
-		cons := fname(mq, "", "processSubscribe")
+	if f := e.anchor("processSubscribe"); f != nil {
+		cons := e.fnameOf(f)
 		subs := c16CallsTo(f, f.Body, false, "(*"+mq+".TopicManager).subscribe")
 		if c.RequireCount("R-C16-2", "topicMgr.subscribe call sites in processSubscribe", len(subs), 1) {
 			sub := subs[0]
@@ -1042,60 +1099,7 @@ func c16Resubscribe(e *c16Env) {
 
 	// allSubscribes enumerates all topics
 	if f := fn(c, mq, "Session", "allSubscribes"); f != nil {
-		cons := fname(mq, "Session", "allSubscribes")
-		var rng *ast.RangeStmt
-		ast.Inspect(f.Body, func(n ast.Node) bool {
-			if r, ok := n.(*ast.RangeStmt); ok && c16Sel(f, r.X, e.topicsF) {
-				rng = r
-			}
-			return true
-		})
-		if rng == nil {
-			c.Violate("R-C16-2", cons+"|enumerates every topic", pos(c, f.Body), "allSubscribes does not range over the session's Topics")
-		} else {
-			ok, why := true, ""
-			if ex := breaksOut(f, rng, labelOf(f.Body, rng)); len(ex) > 0 {
-				ok, why = false, "the loop over the session's topics can be left early ("+pos(c, ex[0])+"): the remaining subscriptions are not restored on reconnect"
-			}
-			kObj, vObj := c16Obj(f, rng.Key), c16Obj(f, rng.Value)
-			// returned slices must be appended with key / value inside the loop
-			var rets []*ast.ReturnStmt
-			ast.Inspect(f.Body, func(n ast.Node) bool {
-				if r, ok := n.(*ast.ReturnStmt); ok {
-					rets = append(rets, r)
-				}
-				return true
-			})
-			appended := func(slice types.Object, src types.Object) bool {
-				found := false
-				ast.Inspect(rng.Body, func(n ast.Node) bool {
-					as, ok := n.(*ast.AssignStmt)
-					if !ok || len(as.Lhs) != 1 || len(as.Rhs) != 1 || c16Obj(f, as.Lhs[0]) != slice {
-						return true
-					}
-					call, ok := ast.Unparen(as.Rhs[0]).(*ast.CallExpr)
-					if !ok || calleeFull(f, call) != "builtin.append" || len(call.Args) < 2 || c16Obj(f, call.Args[0]) != slice {
-						return true
-					}
-					for _, a := range call.Args[1:] {
-						if c16Mentions(f, a, src) {
-							found = true
-						}
-					}
-					return true
-				})
-				return found
-			}
-			for _, r := range rets {
-				if !contains(rng, r) && len(r.Results) >= 2 && ok {
-					t, q := c16Obj(f, r.Results[0]), c16Obj(f, r.Results[1])
-					if t == nil || q == nil || kObj == nil || vObj == nil || !appended(t, kObj) || !appended(q, vObj) {
-						ok, why = false, "the returned topic / QoS slices are not built by appending every key / value of the session's Topics"
-					}
-				}
-			}
-			c.Check(ok, "R-C16-2", cons+"|enumerates every topic", pos(c, rng), "range over info.Topics without early exit, key appended to the topics result and value to the QoS result", why)
-		}
+		c16AllSubscribes(e, f)
 	}
 }
 
@@ -1167,9 +1171,24 @@ func (e *c16Env) brokerLockCall(f *flow.Func, call *ast.CallExpr, callee types.O
 	if !ok || tv.Type == nil {
 		return ""
 	}
-	t := tv.Type
-	if !c16PtrTo(t, "Broker") {
-		if n, ok := t.(*types.Named); !ok || n.Obj().Name() != "Broker" || n.Obj().Pkg() == nil || n.Obj().Pkg().Path() != Mod+mq {
+	isBroker := func(t types.Type) bool {
+		if c16PtrTo(t, "Broker") {
+			return true
+		}
+		n, ok := t.(*types.Named)
+		return ok && n.Obj().Name() == "Broker" && n.Obj().Pkg() != nil && n.Obj().Pkg().Path() == Mod+mq
+	}
+	if !isBroker(tv.Type) {
+		// the mutex as a named field of Broker: b.mu.Lock()
+		sel, ok := ast.Unparen(recv).(*ast.SelectorExpr)
+		if !ok {
+			return ""
+		}
+		xt, ok := f.Info.Types[sel.X]
+		if !ok || xt.Type == nil || !isBroker(xt.Type) {
+			return ""
+		}
+		if ts := tv.Type.String(); ts != "sync.RWMutex" && ts != "sync.Mutex" && ts != "*sync.RWMutex" && ts != "*sync.Mutex" {
 			return ""
 		}
 	}
@@ -1501,6 +1520,7 @@ func (w *c16Walker) visit(f *flow.Func, name, upstream, chain string, depth int,
 	for _, l := range lits {
 		up := ""
 		suffix := "$func"
+		locked := false
 		if call, ok := pm[l].(*ast.CallExpr); ok && call.Fun == l {
 			switch pm[call].(type) {
 			case *ast.DeferStmt:
@@ -1509,8 +1529,27 @@ func (w *c16Walker) visit(f *flow.Func, name, upstream, chain string, depth int,
 			default:
 				up = upstream
 			}
+		} else if ok && call.Fun != l {
+			// the literal is an argument: `b.withLock(func() {...})`
+			if _, async := pm[call].(*ast.GoStmt); !async {
+				if fo, ok := c16FnOK(f, call); ok {
+					if d := w.e.decls[fo]; d != nil {
+						for i, a := range call.Args {
+							if a == ast.Expr(l) {
+								always, underLock := w.runsParam(d, i)
+								if always || underLock {
+									up = upstream
+								}
+								if underLock {
+									locked = true
+								}
+							}
+						}
+					}
+				}
+			}
 		}
-		w.visit(f.Lit(l), name+suffix, up, chain+" → "+name, depth+1, false)
+		w.visit(f.Lit(l), name+suffix, up, chain+" → "+name, depth+1, locked)
 	}
 }
 
@@ -1548,293 +1587,64 @@ func c16Teardown(e *c16Env) {
 	}
 }
 
-// ---- R-C16-4 --------------------------------------------------------------------------
-
-func c16AdminDelete(e *c16Env) {
-	c := e.c
-	// (a) the HTTP handler deletes the stored session of every listed id
-	if f := fn(c, mq, "Broker", "httpDeleteSessionHandler"); f != nil {
-		cons := fname(mq, "Broker", "httpDeleteSessionHandler")
-		var dels []*ast.CallExpr
-		for _, call := range calls(f.Body, false) {
-			if ifaceMethodCall(f, call, mq, "storage", "delete") {
-				dels = append(dels, call)
-			}
-		}
-		if len(dels) == 0 {
-			c.Violate("R-C16-4", cons+"|store.delete(sessionStoreKey(id)) per listed session", pos(c, f.Body), "the admin handler never deletes a session from the store: nothing triggers the disconnect")
-		}
-		for _, del := range dels {
-			ok, why := false, "the store.delete call is not inside a loop over the request's Sessions"
-			for _, l := range enclosingLoops(f.Body, del) {
-				rng, isR := l.(*ast.RangeStmt)
-				if !isR || !c16Sel(f, rng.X, e.httpSessF) {
-					continue
+// runsParam analyses a helper that receives a function: does every exit of the helper have called
+// that parameter (always), and is the broker lock held at every such call (underLock)?
+// (`func (b *Broker) withLock(fn func()) { b.Lock(); defer b.Unlock(); fn() }`)
+func (w *c16Walker) runsParam(d *ast.FuncDecl, idx int) (always, underLock bool) {
+	f := funcOf(w.e.pkg, d)
+	var param types.Object
+	i := 0
+	if d.Type.Params != nil {
+		for _, fld := range d.Type.Params.List {
+			for _, nm := range fld.Names {
+				if i == idx {
+					param = f.Info.Defs[nm]
 				}
-				vObj := c16Obj(f, rng.Value)
-				why = "the deleted key is not sessionStoreKey(<listed session>.SessionID)"
-				if len(del.Args) == 1 {
-					if kc, isC := ast.Unparen(del.Args[0]).(*ast.CallExpr); isC && c16Is(f, kc, mq+".sessionStoreKey") && len(kc.Args) == 1 &&
-						c16Sel(f, kc.Args[0], e.httpIDF) && vObj != nil && c16Obj(f, c16Root(kc.Args[0])) == vObj {
-						ok = true
-					}
-				}
-			}
-			c.Check(ok, "R-C16-4", cons+"|store.delete(sessionStoreKey(id)) per listed session", pos(c, del), "range over data.Sessions deleting sessionStoreKey(s.SessionID)", why)
-		}
-	}
-
-	// (b) the watcher is started
-	for _, starter := range []string{"newBroker", "reconnectWatcher"} {
-		recv := "Broker"
-		if starter == "newBroker" {
-			recv = ""
-		}
-		if f := fn(c, mq, recv, starter); f != nil {
-			ws := c16CallsTo(f, f.Body, false, "(*"+mq+".Broker).watchDelete")
-			ok := false
-			for _, call := range ws {
-				if len(call.Args) >= 1 {
-					// the channel argument is a result of store.watchDelete(...)
-					chObj := c16Obj(f, call.Args[0])
-					ast.Inspect(f.Body, func(n ast.Node) bool {
-						if as, isA := n.(*ast.AssignStmt); isA && len(as.Rhs) == 1 && len(as.Lhs) >= 1 && chObj != nil && c16Obj(f, as.Lhs[0]) == chObj {
-							if wc, isC := ast.Unparen(as.Rhs[0]).(*ast.CallExpr); isC && ifaceMethodCall(f, wc, mq, "storage", "watchDelete") {
-								ok = true
-							}
-						}
-						return true
-					})
-				}
-			}
-			c.Check(ok, "R-C16-4", fname(mq, recv, starter)+"|starts watchDelete on the store's delete channel", pos(c, f.Body),
-				"watchDelete(ch, …) with ch from store.watchDelete(…)", "the session-deletion watcher is not started with the store's delete channel: admin deletes are never seen")
-		}
-	}
-
-	// (c) watchDelete
-	if f := fn(c, mq, "Broker", "watchDelete"); f != nil {
-		cons := fname(mq, "Broker", "watchDelete")
-		dels := c16CallsTo(f, f.Body, false, "(*"+mq+".Broker).deleteSession")
-		if c.RequireCount("R-C16-4", "deleteSession call sites in watchDelete", len(dels), 1) {
-			del := dels[0]
-			var rng *ast.RangeStmt
-			loops := enclosingLoops(f.Body, del)
-			for _, l := range loops {
-				if r, ok := l.(*ast.RangeStmt); ok {
-					rng = r
-				}
-			}
-			var outer *ast.ForStmt
-			if len(loops) > 0 {
-				outer, _ = loops[0].(*ast.ForStmt)
-			}
-			vID, _ := func() (*ast.Ident, bool) {
-				if rng == nil || rng.Value == nil {
-					return nil, false
-				}
-				id, ok := rng.Value.(*ast.Ident)
-				return id, ok
-			}()
-			if rng == nil || vID == nil || c16Obj(f, vID) == nil || outer == nil {
-				c.Undecide("R-C16-4", cons+"|shape", pos(c, del), "deleteSession is not called from a `for k, v := range <batch>` loop inside the watch loop")
-			} else {
-				nilKey := f.NilKey(vID)
-				kObj := c16Obj(f, rng.Key)
-				// id derived from the key
-				derived := false
-				if len(del.Args) == 1 && kObj != nil {
-					if c16Mentions(f, del.Args[0], kObj) {
-						derived = true
-					}
-					for _, r := range c16DefRHS(f, c16Obj(f, del.Args[0])) {
-						if c16Mentions(f, r, kObj) {
-							derived = true
-						}
-					}
-				}
-				c.Check(derived, "R-C16-4", cons+"|deleteSession(id derived from the deleted key)", pos(c, del), "argument computed from the range key", "deleteSession is not called with an id computed from the deleted key")
-				exits := breaksOut(f, rng, labelOf(f.Body, rng))
-				c.Check(len(exits) == 0, "R-C16-4", cons+"|whole batch processed", pos(c, rng), "no return/break/goto inside the loop over the batch of events",
-					"the loop over a batch of delete events can be left early: the clients of the remaining deleted sessions are not disconnected", func() []string {
-						if len(exits) > 0 {
-							return []string{"exit at " + pos(c, exits[0])}
-						}
-						return nil
-					}()...)
-				const evIn, evDel, evDone, evRe = "ev:c16inbody", "ev:c16deleted", "ev:c16doneCase", "ev:c16reconnect"
-				var badIter *flow.State
-				iters := 0
-				isDoneClause := func(s ast.Stmt) bool {
-					cc, ok := s.(*ast.CommClause)
-					if !ok || cc.Comm == nil {
-						return false
-					}
-					found := false
-					ast.Inspect(cc.Comm, func(n ast.Node) bool {
-						if x, ok := n.(ast.Expr); ok && c16Sel(f, x, e.brokerDoneF) {
-							found = true
-						}
-						return true
-					})
-					return found
-				}
-				res := analyze(c, f, flow.Config{
-					NoHavoc: true,
-					OnBlock: func(st *flow.State, b *cfg.Block) {
-						switch {
-						case b.Stmt == rng && b.Kind == cfg.KindRangeBody:
-							st.Set(evIn, flow.True)
-							st.Set(evDel, flow.False)
-						case b.Stmt == rng && b.Kind == cfg.KindRangeLoop:
-							if st.Is(evIn, flow.True) {
-								iters++
-								if !st.Is(evDel, flow.True) && !st.Is(nilKey, flow.False) && badIter == nil {
-									badIter = st
-								}
-							}
-							st.Set(evIn, flow.Unknown)
-							st.Set(evDel, flow.Unknown)
-							st.Set(nilKey, flow.Unknown)
-						case b.Stmt == ast.Stmt(outer) && b.Kind == cfg.KindForBody:
-							st.Set(evDone, flow.Unknown)
-							st.Set(evRe, flow.Unknown)
-						case b.Kind == cfg.KindSelectCaseBody && isDoneClause(b.Stmt):
-							st.Set(evDone, flow.True)
-						}
-					},
-					OnCall: func(st *flow.State, call *ast.CallExpr, callee types.Object, d bool) {
-						if call == del {
-							st.Set(evDel, flow.True)
-						}
-						if c16Is(f, call, "(*"+mq+".Broker).reconnectWatcher") {
-							st.Set(evRe, flow.True)
-						}
-					},
-				})
-				if res != nil {
-					c.RequireCount("R-C16-4", "abstract batch iterations explored in watchDelete", iters, 1)
-					var bad *flow.State
-					for _, st := range res.At[del] {
-						if !st.Is(nilKey, flow.True) {
-							bad = st
-						}
-					}
-					if len(res.At[del]) == 0 {
-						c.Violate("R-C16-4", cons+"|deleteSession only for deleted keys", pos(c, del), "deleteSession is unreachable in watchDelete")
-					} else {
-						c.Check(bad == nil, "R-C16-4", cons+"|deleteSession only for deleted keys", pos(c, del), sprintf("%d states reach deleteSession, all with value == nil", len(res.At[del])),
-							"deleteSession is reachable for an event whose value is not known to be nil: a stored (not deleted) session would disconnect its client on every session update", witness(bad)...)
-					}
-					c.Check(badIter == nil, "R-C16-4", cons+"|every deleted key reaches deleteSession", pos(c, rng), sprintf("%d abstract iteration ends: each either called deleteSession or had value != nil", iters),
-						"an iteration over the batch ends without deleteSession although the value may be nil (deleted key): that client stays connected after its session was deleted", witness(badIter)...)
-					var badExit *flow.State
-					n := 0
-					for _, ex := range res.Exits {
-						if !c16RealExit(ex) {
-							continue
-						}
-						n++
-						if !ex.State.Is(evDone, flow.True) && !ex.State.Is(evRe, flow.True) && badExit == nil {
-							badExit = ex.State
-						}
-					}
-					c.Check(badExit == nil && n > 0, "R-C16-4", cons+"|keeps watching", pos(c, outer), sprintf("%d exits: broker shutdown or reconnectWatcher started", n),
-						"watchDelete can return for a reason other than broker shutdown without starting reconnectWatcher: later admin deletes no longer disconnect anybody", witness(badExit)...)
-				}
+				i++
 			}
 		}
 	}
-
-	// (d) deleteSession closes the registered client
-	if f := fn(c, mq, "Broker", "deleteSession"); f != nil {
-		cons := fname(mq, "Broker", "deleteSession")
-		var param types.Object
-		if f.Type.Params != nil && len(f.Type.Params.List) > 0 && len(f.Type.Params.List[0].Names) > 0 {
-			param = f.Info.Defs[f.Type.Params.List[0].Names[0]]
-		}
-		regVars := map[types.Object]bool{}
-		var absentT, absentF, disc []string
-		keyOK := true
-		var lookupAt ast.Node
-		ast.Inspect(f.Body, func(n ast.Node) bool {
-			as, ok := n.(*ast.AssignStmt)
-			if !ok || len(as.Rhs) != 1 {
-				return true
-			}
-			r := ast.Unparen(as.Rhs[0])
-			var keyExpr ast.Expr
-			if e.isClientsLookup(f, r) {
-				keyExpr = r.(*ast.IndexExpr).Index
-			} else if call, isC := r.(*ast.CallExpr); isC && c16Is(f, call, "(*"+mq+".Broker).getClient") && len(call.Args) == 1 {
-				keyExpr = call.Args[0]
-			} else {
-				return true
-			}
-			lookupAt = as
-			if param == nil || c16Obj(f, keyExpr) != param {
-				keyOK = false
-			}
-			if id, ok := as.Lhs[0].(*ast.Ident); ok && c16Obj(f, id) != nil {
-				regVars[c16Obj(f, id)] = true
-				absentT = append(absentT, f.NilKey(id))
-			}
-			if len(as.Lhs) == 2 {
-				if id, ok := as.Lhs[1].(*ast.Ident); ok && c16Obj(f, id) != nil {
-					absentF = append(absentF, f.VarKey(id))
-				}
-			}
-			return true
-		})
-		var closes []*ast.CallExpr
-		for _, call := range calls(f.Body, false) {
-			if c16Is(f, call, "(*"+mq+".Client).close", "(*"+mq+".Client).closeAndDelSession") && regVars[c16Obj(f, c16Recv(call))] {
-				closes = append(closes, call)
-			}
-			if c16Is(f, call, "(*"+mq+".Client).disconnected") && regVars[c16Obj(f, c16Recv(call))] {
-				disc = c16AddKey(disc, f.CallKey(call))
-			}
-		}
-		role := cons + "|registered client is closed"
-		switch {
-		case len(closes) == 0:
-			c.Violate("R-C16-4", role, pos(c, f.Body), "deleteSession never closes the client registered under the deleted session's id: deleting a session through the admin endpoint does not disconnect the client")
-		case !keyOK:
-			c.Violate("R-C16-4", role, pos(c, lookupAt), "the client that is closed is not looked up under the id passed to deleteSession")
-		default:
-			res := analyze(c, f, flow.Config{NoHavoc: true, OnCall: func(st *flow.State, call *ast.CallExpr, callee types.Object, d bool) {
-				for _, cl := range closes {
-					if call == cl {
-						st.Set("ev:c16closed", flow.True)
-					}
-				}
-			}})
-			if res != nil {
-				var bad *flow.State
-				n := 0
-				for _, ex := range res.Exits {
-					if !c16RealExit(ex) {
-						continue
-					}
-					n++
-					st := ex.State
-					excused := false
-					for _, k := range absentT {
-						excused = excused || st.Is(k, flow.True)
-					}
-					for _, k := range absentF {
-						excused = excused || st.Is(k, flow.False)
-					}
-					for _, k := range disc {
-						excused = excused || st.Is(k, flow.True)
-					}
-					if !st.Is("ev:c16closed", flow.True) && !excused && bad == nil {
-						bad = st
-					}
-				}
-				c.Check(bad == nil && n > 0, "R-C16-4", role, pos(c, closes[0]), sprintf("%d exits: closed, or nobody registered, or already disconnected", n),
-					"deleteSession can return without closing a registered, still connected client: the admin delete does not disconnect it", witness(bad)...)
-			}
+	if param == nil {
+		return false, false
+	}
+	if _, ok := param.Type().Underlying().(*types.Signature); !ok {
+		return false, false
+	}
+	var sites []*ast.CallExpr
+	for _, call := range calls(d.Body, false) {
+		if c16Obj(f, call.Fun) == param {
+			sites = append(sites, call)
 		}
 	}
+	if len(sites) == 0 {
+		return false, false
+	}
+	res := analyze(w.e.c, f, flow.Config{NoHavoc: true, OnCall: func(st *flow.State, call *ast.CallExpr, callee types.Object, deferred bool) {
+		switch w.e.brokerLockCall(f, call, callee) {
+		case "lock":
+			st.Set(c16Locked, flow.True)
+		case "unlock":
+			st.Set(c16Locked, flow.False)
+		}
+		if c16Obj(f, call.Fun) == param {
+			st.Set("ev:c16ranParam", flow.True)
+		}
+	}})
+	if res == nil {
+		return false, false
+	}
+	always, underLock = true, true
+	n := 0
+	for _, ex := range res.Exits {
+		if c16RealExit(ex) {
+			n++
+			always = always && ex.State.Is("ev:c16ranParam", flow.True)
+		}
+	}
+	for _, s := range sites {
+		for _, st := range res.At[s] {
+			underLock = underLock && st.Is(c16Locked, flow.True)
+		}
+	}
+	return always && n > 0, underLock
 }
